@@ -15,13 +15,23 @@
       [resume_equiv], [run_deterministic] (the schedule is unobservable);
     - [direct_refines_machine]: the interruptible model with a stateless host is [Machine.mrun];
     - [stored_and_resumed_equiv]: the three together.
-    Documented non-property: [artifact_parser_not_byte_canonical] (over-long LEB128 accepted).
-    NOT modelled (correspondence / direct oracles only, see design/C13.md): the v1 engine's
-    [resume_receive] / [InstanceState::migrate]; energy is a tick SUM + the sequence of non-zero ticks. *)
+    - [to_machine_of_compiled], [compiled_stored_resumed_equiv]: the stored record of a compiled module
+      projects to exactly C01's [build_artifact], so the above composes with C01's layers;
+    - the parser's normal form: [parse_yields_wellformed], [parse_output_normal_form],
+      [reserialise_idempotent], and the exact characterisation by the strict parser
+      ([strict_parser_canonical], [strict_parser_complete], [noncanonical_iff_overlong_or_unsorted]);
+    - the v1 engine's resume layer ([Contract/V1Resume.v] over [Trie/InstanceState.v]):
+      [response_word_decodable], [response_word_encoding_injective], [response_word_fails_only_on_too_many],
+      [resume_preserves_or_invalidates], [migrate_is_instance_state_resume],
+      [energy_across_interrupt], [energy_no_double_charge].
+    Documented non-properties: [artifact_parser_not_byte_canonical] (over-long LEB128 accepted),
+    [reject_code_zero_would_collide] (unreachable: the engine rejects with negative codes only).
+    Energy in the machine model is a tick SUM + the sequence of non-zero ticks. *)
 From Coq Require Import ZArith NArith List Bool.
 From CB Require Import Common.IntN Wasm.Syntax Wasm.Sem Wasm.Compile Wasm.Machine
-     Wasm.ArtifactCodec Wasm.ArtifactCodecProofs Wasm.ArtifactView Wasm.Resume Wasm.ResumeProofs
-     Wasm.StoredResumedProofs.
+     Wasm.ArtifactCodec Wasm.ArtifactCodecProofs Wasm.ArtifactNormalForm Wasm.ArtifactView Wasm.ArtifactViewProofs
+     Wasm.Resume Wasm.ResumeProofs Wasm.StoredResumedProofs
+     Trie.Locks Trie.InstanceState Trie.InstanceStateProofs Contract.V1Resume Contract.V1ResumeProofs.
 Import ListNotations.
 
 (** ** stored artifacts *)
@@ -169,3 +179,148 @@ Theorem stored_and_resumed_equiv : forall a mhost choose rounds fuel entry args,
   end.
 Proof. exact stored_and_resumed_equiv_thm. Qed.
 Print Assumptions stored_and_resumed_equiv.
+
+(** ** the stored artifact of a compiled module is C01's artifact *)
+Theorem to_machine_of_compiled : forall cm m elem_shift names exports code sa,
+  view_okb cm m names code = true ->
+  s_artifact_of cm m elem_shift names exports code = Some sa ->
+  build_artifact cm m elem_shift code = Some (to_machine sa).
+Proof. exact to_machine_s_artifact_of_thm. Qed.
+Print Assumptions to_machine_of_compiled.
+
+Theorem compiled_stored_resumed_equiv : forall cm m elem_shift names exports code sa art mhost choose rounds fuel entry args,
+  view_okb cm m names code = true ->
+  s_artifact_of cm m elem_shift names exports code = Some sa ->
+  wf_artifact sa -> (fuel <= rounds)%nat ->
+  build_artifact cm m elem_shift code = Some art ->
+  match parse_artifact (output_artifact sa) with
+  | Some (sa', []) =>
+      match init_state (to_machine sa') entry args with
+      | Some st0 => finish (to_machine sa') entry
+                      (r_out (m_drive unit (to_machine sa') (lift_host mhost) choose rounds fuel tt st0))
+      | None => MTrap TBadCode
+      end = mrun art mhost fuel entry args
+  | _ => False
+  end.
+Proof. exact compiled_stored_resumed_equiv_thm. Qed.
+Print Assumptions compiled_stored_resumed_equiv.
+
+(** ** the normal form of accepted bytes *)
+(** whatever [parse_artifact] accepts (from bytes that are bytes) is a well-formed artifact *)
+Theorem parse_yields_wellformed : forall bs a rest,
+  bytes_ok bs -> parse_artifact bs = Some (a, rest) -> wf_artifact a /\ bytes_ok rest.
+Proof. exact parse_wf_thm. Qed.
+Print Assumptions parse_yields_wellformed.
+
+(** ... so its re-serialisation is accepted with the same result, and parse-then-output is idempotent *)
+Theorem parse_output_normal_form : forall bs a rest,
+  bytes_ok bs -> parse_artifact bs = Some (a, rest) ->
+  parse_artifact (output_artifact a ++ rest) = Some (a, rest).
+Proof. exact parse_output_normal_form_thm. Qed.
+Print Assumptions parse_output_normal_form.
+
+Theorem reserialise_idempotent : forall bs a rest,
+  bytes_ok bs -> parse_artifact bs = Some (a, rest) ->
+  forall a' r', parse_artifact (output_artifact a) = Some (a', r') -> a' = a /\ r' = [].
+Proof. exact reserialise_idempotent_strong_thm. Qed.
+Print Assumptions reserialise_idempotent.
+
+(** the exact normal form: [parse_artifact_strict] is [parse_artifact] with every LEB128 number
+    required to be in its shortest form and the export list required to be strictly sorted; it accepts
+    exactly the serialisations of well-formed artifacts *)
+Theorem strict_parser_sound : forall bs x, parse_artifact_strict bs = Some x -> parse_artifact bs = Some x.
+Proof. exact strict_sound_thm. Qed.
+Print Assumptions strict_parser_sound.
+
+Theorem strict_parser_canonical : forall bs a rest,
+  parse_artifact_strict bs = Some (a, rest) -> bs = output_artifact a ++ rest.
+Proof. exact strict_canonical_gen_thm. Qed.
+Print Assumptions strict_parser_canonical.
+
+Theorem strict_parser_complete : forall a rest,
+  wf_artifact a -> parse_artifact_strict (output_artifact a ++ rest) = Some (a, rest).
+Proof. exact strict_complete_thm. Qed.
+Print Assumptions strict_parser_complete.
+
+(** an accepted input differs from its re-serialisation exactly when it contains an over-long
+    LEB128 number or exports out of order *)
+Theorem noncanonical_iff_overlong_or_unsorted : forall bs a rest,
+  bytes_ok bs -> parse_artifact bs = Some (a, rest) ->
+  (bs = output_artifact a ++ rest <-> parse_artifact_strict bs = Some (a, rest)).
+Proof. exact noncanonical_iff_not_strict_thm. Qed.
+Print Assumptions noncanonical_iff_overlong_or_unsorted.
+
+Example unsorted_exports_normalised :
+  let bs := [255; 0; 0; 0; 0; 0; 2; 1; 98; 1; 1; 97; 2; 0]%N in
+  let a := two_exports [([97], 2); ([98], 1)]%N in
+  parse_artifact bs = Some (a, []) /\ parse_artifact_strict bs = None
+  /\ output_artifact a = [255; 0; 0; 0; 0; 0; 2; 1; 97; 2; 1; 98; 1; 0]%N
+  /\ parse_artifact_strict (output_artifact a) = Some (a, []).
+Proof. exact strict_rejects_unsorted_ex. Qed.
+Print Assumptions unsorted_exports_normalised.
+
+(** ** the v1 engine's resume layer *)
+(** the word pushed by [resume_receive] determines the kind of response, the state-updated bit, the
+    parameter index and the reject code *)
+Theorem response_word_decodable : forall su params r w ps,
+  params <> [] -> reject_code_nonzero r ->
+  response_word su params r = Some (w, ps) -> decode_word w = shape_of su params r.
+Proof. exact decode_response_word. Qed.
+Print Assumptions response_word_decodable.
+
+(** distinct responses give distinct words *)
+Theorem response_word_encoding_injective : forall su1 ps1 r1 su2 ps2 r2 w p1 p2,
+  ps1 <> [] -> ps2 <> [] -> reject_code_nonzero r1 -> reject_code_nonzero r2 ->
+  response_word su1 ps1 r1 = Some (w, p1) -> response_word su2 ps2 r2 = Some (w, p2) ->
+  shape_of su1 ps1 r1 = shape_of su2 ps2 r2.
+Proof. exact response_word_encoding_injective_thm. Qed.
+Print Assumptions response_word_encoding_injective.
+
+Theorem response_word_fails_only_on_too_many : forall su params r,
+  response_word su params r = None <->
+  (MAX_PARAM_INDEX < N.of_nat (length params))%N
+   /\ match r with RSuccess _ (Some _) | RFailure (FContractReject _ _) => True | _ => False end.
+Proof. exact response_word_total. Qed.
+Print Assumptions response_word_fails_only_on_too_many.
+
+(** the side condition of injectivity is needed (documented non-property; a reject code is negative) *)
+Example reject_code_zero_would_collide :
+  response_word false [[]] (RFailure (FContractReject 0 [1%N])) = Some (1099511627776%N, [[]; [1%N]])
+  /\ response_word false [[]] (RSuccess 0 (Some [1%N])) = Some (1099511627776%N, [[]; [1%N]]).
+Proof. exact reject_code_zero_collides. Qed.
+Print Assumptions reject_code_zero_would_collide.
+
+(** [InstanceState::migrate]: a handle valid at the interrupt is valid after the resume iff the
+    state was not updated, and then denotes the same entry with the same contents *)
+Theorem resume_preserves_or_invalidates : forall state_updated cur outer id x,
+  entry_of (fst outer) (snd outer) id = Some x ->
+  let f := migrate state_updated cur outer in
+  (state_updated = false -> entry_of (fst f) (snd f) id = Some x)
+  /\ (state_updated = true -> entry_of (fst f) (snd f) id = None)
+  /\ (entry_of (fst f) (snd f) id <> None <-> state_updated = false).
+Proof. exact resume_preserves_or_invalidates_thm. Qed.
+Print Assumptions resume_preserves_or_invalidates.
+
+(** it is the [resume] of the C03/C15 handle-layer model, with the flag computed there *)
+Theorem migrate_is_instance_state_resume : forall commit inner outer,
+  resume commit inner outer = migrate (commit && touched inner) (snd inner) outer.
+Proof. exact resume_is_migrate. Qed.
+Print Assumptions migrate_is_instance_state_resume.
+
+(** energy at the interrupt = energy at the resume: [resume_receive] charges nothing before [run_config] *)
+Theorem energy_across_interrupt : forall h su cur r h' w,
+  resume_in (snd (interrupt_out h)) (fst (interrupt_out h)) su cur r = Some (h', w) ->
+  rh_energy h' = rh_energy h
+  /\ rh_frame h' = migrate su cur (rh_frame h)
+  /\ response_word su (rh_params h) r = Some (w, rh_params h').
+Proof. exact energy_across_interrupt_thm. Qed.
+Print Assumptions energy_across_interrupt.
+
+(** and in the machine: with energy as host state charged per host call, the remaining energy after
+    an interrupted run is that of the direct run (no double charge) *)
+Theorem energy_no_double_charge : forall (H : Type) art (cost : hquery -> N) hc choose rounds fuel (e : N) (h : H) st,
+  (fuel <= rounds)%nat ->
+  fst (r_host (m_drive (N * H) art (metered_host cost hc) choose rounds fuel (e, h) st))
+  = fst (r_host (m_run_direct (N * H) art (metered_host cost hc) fuel (e, h) st)).
+Proof. exact energy_no_double_charge_thm. Qed.
+Print Assumptions energy_no_double_charge.
